@@ -68,6 +68,35 @@ def content(t, whole):
         return [('dropped', t[1])]          # the generic element of the source is removed
     return [('opaque', t)]
 
+RES0 = ('variant', ('field', STREAM, 'res'), 'Some', 0)      # the result of the page that has just ended
+RESULT_FIELD = {'rc': 'result code', 'matched': 'matched DN', 'text': 'diagnostic message', 'refs': 'referrals'}
+
+def foreign_tests(o):
+    """The tests on a path (atoms of its path condition) that read something of the ended page's result other than what C16 lets the
+    page end depend on, as (what is read, atom, truth): a field of the result that is not its control list; of a control, anything
+    but its type (the `Option<ControlType>` / the OID in the raw control); of the parsed paging control, anything but the cookie.
+    Read off the terms (a place below stream.res' payload), so an `if`, a match guard and a literal inside a pattern are the same."""
+    out = []
+    def is_elem(x):
+        while isinstance(x, tuple) and x and x[0] in ('field', 'variant', 'elem', 'enumerate', 'index'):
+            if x == ('field', RES0, 'ctrls'):
+                return True
+            x = x[1]
+        return False
+    for a, t in o.st.pc:
+        for x in absx.leaves(a, lambda x: x[0] == 'field' and len(x) == 3):
+            if x[1] == RES0 and x[2] != 'ctrls':
+                out.append((RESULT_FIELD.get(x[2], 'field `%s`' % x[2]), a, t))
+            elif x[2] in ('crit', 'val') and is_elem(x[1]):
+                out.append(('control\'s `%s`' % x[2], a, t))
+            elif x[2] != 'cookie' and x[1][0] == 'call' and x[1][1] == 'ldap3::controls_impl::RawControl::parse' and absx.leaves(x[1], lambda y: y == ('field', RES0, 'ctrls')):
+                out.append(('paging control\'s `%s`' % x[2], a, t))
+    seen, uniq = set(), []
+    for w, a, t in out:
+        if (w, a) not in seen:
+            seen.add((w, a)); uniq.append((w, a, t))
+    return uniq
+
 def rooted_in(t, root):
     """t is a place below root: root itself, a field of it, the payload of an Option in it ..."""
     while isinstance(t, tuple) and t:
@@ -249,6 +278,7 @@ def run(ctx):
         return e is not None and e[0] == 'panic' and e[1].startswith('core::option::Option::<T>::') and e[1].rsplit('::', 1)[-1] in absx.Interp.OPTION_PAYLOADS \
             and bool(e[2]) and rooted_in(e[2][0], SELF) and e[2][0] != SELF and absx.pc_variant(o.st.pc, lambda v: v == e[2][0], 'None') is True
     judged = []
+    page_ends = []              # the paths on which the upstream reported the end of a page
     request_fields = set()      # the fields of the adapter a follow-up request is built from (read off the follow-up paths)
     def judge_state(o, which):
         judged.append((o, which))
@@ -277,6 +307,21 @@ def run(ctx):
             judge_state(o, 'passthrough')
             ctx.add('A2.passthrough', 'entries / errors', loc(N.root), sem.reconstructs(o.val, up) and not searches and not removes, 'anything but Ok(None) must be returned unchanged')
             continue
+        # The page has ended and its result is what stream.res holds.  What happens now - end, follow-up, removal of the control - may
+        # depend on nothing but: is there a result, is there a paging control among its controls, is that control's cookie empty.
+        # Stated about every path on which the upstream answered Ok(None), whatever it goes on to do: no test on the way (an `if`, a
+        # guard, a literal or a range inside a pattern, a `matches!`) reads another part of the result or of the control.
+        for what, a, t in foreign_tests(o):
+            outcome = 'ends the search without looking at the cookie (the pages that remain are never requested, the paging control stays in the final result)' \
+                if not parses and not searches and not removes and o.kind == 'ret' else \
+                'ends the search and leaves the paging control in the final result' if parses and not searches and not removes and o.kind == 'ret' else \
+                'asks for the next page' if searches else 'removes the paging control and ends' if removes else 'goes on'
+            ctx.fail('A2.page-end-decided-by-cookie-alone', what, loc(N.root),
+                     'the page\'s %s decides whether its cookie is looked at / its paging control removed: where `%s` is %s next() %s; at the end of a page '
+                     'nothing but the presence of the page\'s result, of the paging control in it and the emptiness of its cookie may decide what happens'
+                     % (what, absx.fmt(a)[:80], 'true' if t else 'false', outcome))
+        page_ends.append(o)
+        ctx.add('A2.page-end-decided-by-cookie-alone', 'page-end path %d' % len(page_ends), loc(N.root), True, '')
         res_some = next((t for a, t in o.st.pc if a == ('is', ('field', STREAM, 'res'), 'Some')), None)
         if res_some is False:
             seen.add('no-result')
